@@ -153,24 +153,35 @@ def main():
     ap.add_argument("--shards", type=int, default=8)
     ap.add_argument("--baseline", action="store_true")
     ap.add_argument("--default-checks", default="")
+    ap.add_argument("--skip", default="", help="comma separated mutant ids (prefixes) to skip")
     ap.add_argument("--out", default=os.path.join(ROOT, "sensitivity.json"))
     args = ap.parse_args()
     args.default_checks = [c for c in args.default_checks.split(",") if c]
     only = set(x for x in args.only.split(",") if x)
     ms = [m for m in M if not only or m[0] in only or any(m[0].startswith(o) for o in only)]
-    results = []
+    skip = [x for x in args.skip.split(",") if x]
+    ms = [m for m in ms if not any(m[0].startswith(x) for x in skip)]
+    def save(r):
+        old = {}
+        if os.path.exists(args.out):
+            old = {x["id"]: x for x in json.load(open(args.out))}
+        prev = old.get(r["id"])
+        if prev and not r.get("error"):
+            merged = dict(prev.get("results", {}))
+            merged.update(r["results"])
+            r["results"] = merged
+            for k in ("baseline", "survives_baseline"):
+                if k not in r and k in prev:
+                    r[k] = prev[k]
+        old[r["id"]] = r
+        json.dump(sorted(old.values(), key=lambda x: x["id"]), open(args.out, "w"), indent=1)
+
     with ThreadPoolExecutor(args.jobs) as ex:
         for r in ex.map(lambda m: one(m, args), ms):
-            results.append(r)
+            save(r)
             caught = [c for c, v in r["results"].items() if v["rc"] == 1]
             missed = [c for c, v in r["results"].items() if v["rc"] != 1]
             print(r["id"], r.get("error") or "", "baseline:", r.get("survives_baseline"), "caught:", caught, "missed:", missed, flush=True)
-    old = {}
-    if os.path.exists(args.out):
-        old = {r["id"]: r for r in json.load(open(args.out))}
-    for r in results:
-        old[r["id"]] = r
-    json.dump(sorted(old.values(), key=lambda r: r["id"]), open(args.out, "w"), indent=1)
 
 
 if __name__ == "__main__":
